@@ -91,7 +91,8 @@ theorem null_cells_exact (T : ScopeTable) (ctx : Ctx) (spec : ColSpec) (fn : Opt
             simp [h3, List.getD_eq_getElem?_getD, hv, h2]
       · simp at he
     · split at he <;> simp at he; simp [he] at hr
-    · split at he
+    · unfold dtypeErrs at he
+      split at he
       · simp at he
       · split at he <;> simp at he; simp [he] at hr
     · exact absurd h hchk
